@@ -23,6 +23,8 @@ type StoreCase struct {
 	Steps  []StoreStep `json:"steps"`
 }
 
+var sharedZooLen = zoo.Fixed()
+
 var storeKeys = []string{"", "a", "b", "ключ", "k\x00z", "日本語", "a b", "A", "é", "é"}
 
 type snapshot struct {
@@ -109,6 +111,12 @@ type storeProbe func(si int, st StoreStep, s *flyt.SharedStore, ref map[string]a
 
 func runStoreCaseWith(cs *StoreCase, z []zoo.Named, probe storeProbe) (key, detail string, stats map[string]int) {
 	stats = map[string]int{}
+	// a second, independently built instance of the same value list: equal contents, distinct containers — an
+	// overwrite with an equal-looking value is still an overwrite
+	var z2 []zoo.Named
+	if len(z) == len(sharedZooLen) {
+		z2 = zoo.Fixed()
+	}
 	s := flyt.NewSharedStore()
 	ref := map[string]any{}
 	var snaps []*snapshot
@@ -123,6 +131,9 @@ func runStoreCaseWith(cs *StoreCase, z []zoo.Named, probe storeProbe) (key, deta
 	for si, st := range cs.Steps {
 		k := keyName(st.Key)
 		v := z[st.Val%len(z)].V
+		if z2 != nil && (si+st.Val)%2 == 1 {
+			v = z2[st.Val%len(z2)].V
+		}
 		stats["op."+st.Op]++
 		switch st.Op {
 		case "set":
@@ -262,7 +273,7 @@ func runStoreCaseWith(cs *StoreCase, z []zoo.Named, probe storeProbe) (key, deta
 		if s.Len() != len(ref) {
 			return fail("len", "step %d (%s): Len()=%d, reference map has %d entries", si, st.Op, s.Len(), len(ref))
 		}
-		probeKeys := append([]string{"never-set", k}, storeKeys...)
+		probeKeys := append([]string{"never-set", k, "a.a", "a.b", "A.a", "b.mutated"}, storeKeys...) // dotted names are just names
 		for _, kk := range probeKeys {
 			rv, rok := ref[kk]
 			gv, gok := s.Get(kk)
